@@ -8,7 +8,10 @@
 #include "socket_async_impl.h"
 #include "sockpuppet/socket_async.h"
 
+#include <arpa/inet.h>
 #include <atomic>
+#include <netinet/in.h>
+#include <sys/socket.h>
 #include <future>
 #include <memory>
 #include <optional>
@@ -23,6 +26,9 @@ struct User
   std::string name;
   std::vector<std::string> actions;
   std::optional<SocketUdpAsync> sock;
+  std::optional<SocketTcpAsync> tsock;
+  std::atomic<bool> disconnected{false};
+  std::atomic<bool> discStarted{false};
   std::optional<Address> addr;
   std::optional<ToDo> todo;
   std::future<void> fut;
@@ -40,6 +46,8 @@ struct Scen
   int drvSteps = 0;
   long drvTimeout = -1;
   std::atomic<int> runReturned{0};
+  int lsn = -1;       // raw listener the TCP scenarios connect to
+  uint16_t lsnPort = 0;
   int sigStopAt = 0; // Stop() from a 'signal handler' in front of the driver thread's k-th scheduling point
 };
 
@@ -61,8 +69,35 @@ void DoAction(Scen &sc, User &u, std::string const &a)
         sched::mark("handler " + up->name + " exit");
       });
     u.addr.emplace(u.sock->LocalAddress());
+  } else if(name == "tcp") {
+    auto *up = &u;
+    u.tsock.emplace(SocketTcpBuffered(SocketTcp(Address("127.0.0.1:" + std::to_string(sc.lsnPort))), 0, 64), *sc.driver,
+      [up](BufferPtr) {
+        sched::mark("handler " + up->name + " enter");
+        sched::yield("in-handler");
+        ++up->handled;
+        sched::mark("handler " + up->name + " exit");
+      },
+      [up](Address, char const *) {
+        sched::mark("handler " + up->name + " enter");
+        up->discStarted = true;
+        sched::yield("in-handler"); // a user thread may try to destroy the socket right now
+        sched::yield("in-handler");
+        up->disconnected = true;
+        sched::mark("handler " + up->name + " exit");
+      });
+  } else if(name == "pclose") {
+    // the raw peer accepts the connection and closes it: the driver will run the disconnect handler
+    int fd = ::accept(sc.lsn, nullptr, nullptr);
+    if(fd >= 0) ::close(fd);
+  } else if(name == "waitdiscstart") {
+    auto *up = &u;
+    sched::wait_until("disconnect handler running " + u.name, [up]() { return up->discStarted.load(); });
+  } else if(name == "waitdisc") {
+    auto *up = &u;
+    sched::wait_until("disconnected " + u.name, [up]() { return up->disconnected.load(); });
   } else if(name == "close") {
-    u.sock.reset();
+    if(u.tsock) u.tsock.reset(); else u.sock.reset();
   } else if(name == "sendto" && u.sock) {
     auto buf = sc.pool.Get();
     buf->assign("x");
@@ -143,6 +178,17 @@ int main()
         sc.users.push_back(std::move(u));
       } else if(w[0] == "go") {
         sched::reset(seed, prefix);
+        {
+          sc.lsn = ::socket(AF_INET, SOCK_STREAM | SOCK_NONBLOCK, 0);
+          sockaddr_in a{};
+          a.sin_family = AF_INET;
+          a.sin_addr.s_addr = htonl(INADDR_LOOPBACK);
+          ::bind(sc.lsn, reinterpret_cast<sockaddr *>(&a), sizeof(a));
+          ::listen(sc.lsn, 16);
+          socklen_t len = sizeof(a);
+          ::getsockname(sc.lsn, reinterpret_cast<sockaddr *>(&a), &len);
+          sc.lsnPort = ntohs(a.sin_port);
+        }
         sc.driver = std::make_unique<Driver>();
         auto &impl = *sc.driver->impl;
         sched::name_mutex(impl.stepMtx.native_handle(), "step");
@@ -207,7 +253,8 @@ int main()
         }
         // orderly teardown (scheduler inactive from here: plain execution)
         sched::reset(1, {});
-        for(auto &up : sc.users) { up->todo.reset(); up->sock.reset(); }
+        for(auto &up : sc.users) { up->todo.reset(); up->sock.reset(); up->tsock.reset(); }
+        ::close(sc.lsn);
         sc.driver.reset();
       }
     }
